@@ -380,6 +380,17 @@ class World:
                     arg = list(fs)
                 elif how == "rlist":
                     arg = list(reversed(fs))
+                elif how == "prefix":
+                    # an older state of the record: all containers but the newest, given as explicit file list
+                    if len(fs) < 2:
+                        raise RuntimeError("no older state")
+                    arg = list(fs[:-1])
+                    kw = {}
+                    if self.cls is IH5MFRecord and mf_path(fs[-2]).is_file():
+                        kw["manifest_file"] = mf_path(fs[-2])
+                    self.rec = self.cls(arg, mode, **kw)
+                    self.open_mode = mode
+                    return ("ok", None)
                 else:
                     arg = [fs[i] for i in how[1]]
             self.rec = self.cls(arg, mode)
@@ -409,5 +420,5 @@ class World:
             self.rec = None
 
 
-OPEN_STEPS_C02 = [["open", "r", "name"], ["open", "r+", "name"], ["open", "a", "name"], ["open", "r", "rlist"], ["open", "r+", "rlist"], ["open", "a", "list"]]
+OPEN_STEPS_C02 = [["open", "r", "name"], ["open", "r+", "name"], ["open", "a", "name"], ["open", "r", "rlist"], ["open", "r+", "rlist"], ["open", "a", "list"], ["open", "r+", "prefix"]]
 LIVE_STEPS_C02 = [["read"], ["cp"], ["data"], ["discard"], ["commit"], ["merge"], ["mergeself"], ["close", True], ["close", False], ["stub"]]
